@@ -4,6 +4,7 @@ import VtModel
 def dispatch (line : String) : String :=
   match line.trimAscii.toString.splitOn " " with
   | "C20" :: args => VtModel.Cache.handle args
+  | "C20b" :: args => VtModel.Cache.handleBudget args
   | "C07" :: args => VtModel.Path.handle args
   | "C14" :: args => VtModel.Sched.handle args
   | "C13" :: args => VtModel.FileOffset.handle args
